@@ -40,7 +40,7 @@ RULE = ("one evaluation = one seeded multi-run call with line-level pre-emption;
 def gen(seed, tier):
     r = rng_for(seed, "workload")
     big = tier == "thorough"
-    n_runs = r.randint(2, 8 if big else 5)
+    n_runs = r.randint(2, 8 if big else 6)
     runs = {}
     for i in range(n_runs):
         rows = G.gen_rows(r, r.randint(0, 5), disjoint=True, t0=r.choice([0, 10]))
@@ -51,13 +51,15 @@ def gen(seed, tier):
     nodes = [{"name": "sa", "kind": "source", "rows": runs["0"]["rows"], "bounds": runs["0"]["bounds"], "runs": runs,
               "opts": {"save_when": save, "rechunk_on_save": False}},
              {"name": "n0", "kind": "rowmap", "dep": "sa", "a": 2, "b": 1,
-              "opts": {"save_when": save, "rechunk_on_save": False}},
+              "opts": {"save_when": save, "rechunk_on_save": False, "infer": r.random() < 0.5}},
              {"name": "n1", "kind": "rowmap", "dep": "n0", "a": 1, "b": 3,
-              "opts": {"save_when": save, "rechunk_on_save": False}}]
+              "opts": {"save_when": save, "rechunk_on_save": False, "infer": r.random() < 0.5}}]
     targets = r.choice([["n1"], ["n0"], ["n0", "n1"], ["sa", "n1"], ["sa", "n0", "n1"]])
     fail = None
-    if r.random() < 0.3:
-        fail = {"run": str(r.randrange(n_runs)), "ignore_errors": r.random() < 0.5}
+    if r.random() < 0.35:
+        # 1 .. n-1 failing runs (at least one healthy run is left)
+        k = min(n_runs - 1, r.choice([1, 1, 2, 3, n_runs - 1]))
+        fail = {"runs": sorted(r.sample([str(i) for i in range(n_runs)], k)), "ignore_errors": r.random() < 0.6}
     return {"spec": {"run_id": "0", "nodes": nodes}, "target": targets[0], "targets": targets,
             "runs": sorted(runs), "order": r.sample(sorted(runs), n_runs),
             "workers": r.randint(1, 8 if big else 5), "warm": r.random() < 0.4,
@@ -71,7 +73,7 @@ def gen(seed, tier):
 def shrink(w):
     if len(w["runs"]) > 2:
         keep = w["order"][:-1]
-        if not w["fail"] or w["fail"]["run"] in keep:
+        if not w["fail"] or all(x in keep for x in failing(w)):
             yield dict(w, order=keep, runs=sorted(keep))
     if len(w["targets"]) > 1:
         yield dict(w, targets=w["targets"][:1], target=w["targets"][0])
@@ -79,6 +81,13 @@ def shrink(w):
         yield dict(w, workers=2)
     if w["fail"]:
         yield dict(w, fail=None)
+
+
+def failing(w):
+    f = w.get("fail")
+    if not f:
+        return []
+    return list(f["runs"]) if "runs" in f else [f["run"]]
 
 
 def make_tracer(sim, q, rng):
@@ -105,7 +114,7 @@ def make_tracer(sim, q, rng):
 def expected(w, spec, targets):
     parts = []
     for rid in sorted(w["order"]):
-        if w["fail"] and w["fail"]["run"] == rid:
+        if rid in failing(w):
             continue
         orc = P.oracle(c14.spec_for_run(spec, rid))
         base = orc[targets[0]]
@@ -127,7 +136,7 @@ def execute(w, seed, strategy="random", forced=None, strict=False):
     def body():
         pr.build()
         if w["fail"]:
-            pr.classes["n0"].H_FAIL_RUN = w["fail"]["run"]
+            pr.classes["n0"].H_FAIL_RUN = tuple(failing(w))
         ctx = pr.context()
         if w["warm"]:
             for t in targets:
@@ -212,7 +221,7 @@ def execute(w, seed, strategy="random", forced=None, strict=False):
                                 break
             elif spec["nodes"][0]["opts"]["save_when"] == "ALWAYS":
                 missing = [k for k, v in res.get("stored", {}).items()
-                           if not v and not (fail and fail["run"] == k[0])]
+                           if not v and k[0] not in failing(w)]
                 if missing:
                     vio = Violation("NOT_STORED", "make over several runs returned but data is not stored", str(missing[:5]))
             if vio is None and res["alive"]:
@@ -222,7 +231,9 @@ def execute(w, seed, strategy="random", forced=None, strict=False):
     r = base_result(pr, w, vio, inconclusive, strategy=strategy,
                     extra_probes={"n_runs": len(w["order"]), "workers": w["workers"],
                                   "multi_target": int(len(targets) > 1), f"api_{w['api']}": 1,
-                                  "failing_run": int(bool(w["fail"])), "warm_cache": int(w["warm"]),
+                                  "failing_run": int(bool(w["fail"])), "failing_runs_ge_2": int(len(failing(w)) >= 2),
+                                  "failing_runs_ge_2x_workers": int(len(failing(w)) >= 2 * w["workers"]),
+                                  "inferred_dtype_plugins": sum(1 for n in spec["nodes"] if n["opts"].get("infer")), "warm_cache": int(w["warm"]),
                                   "traced_lines": pr.R.sim.counters.get("traced_lines", 0),
                                   "line_preemptions": pr.R.sim.counters.get("line_preemptions", 0)})
     r["sample"] = {"order": w["order"], "targets": targets, "workers": w["workers"], "api": w["api"],
